@@ -60,7 +60,7 @@ BodySites(p, o) ==
     [] p.k = "CP" -> LET st == Starts([i \in 1..Len(p.attrs) |-> Len(EncCfgAttrW(p.attrs[i]))], o + 4) IN
                      UnionSeq([i \in 1..Len(p.attrs) |-> { Site(st[i], 2, "cp.attrtype"), LenSite(st[i] + 2, 2, "cp.attrlen", st[i] + 4, 1) }])
     [] p.k = "EAP" -> EapSites(p.eap, o)
-    [] OTHER -> {}
+    [] OTHER -> {}        \* incl. unsupported payloads: only the generic header steers the cursor
 
 PayloadLenW(p) == 4 + Len(EncBodyW(p))
 PayloadSites(p, o) == { Site(o, 1, "payload.next"), Site(o + 1, 1, "payload.crit"), LenSite(o + 2, 2, "payload.len", o, 1) } \cup BodySites(p, o + 4)
